@@ -1,6 +1,7 @@
 #define _GNU_SOURCE
 #include <sys/mman.h>
 #include <sys/wait.h>
+#include <sys/syscall.h>
 
 #include <errno.h>
 #include <fcntl.h>
@@ -68,7 +69,7 @@ vf_init(int * argc, char ** argv, const char * harness)
 	const char * e;
 
 	harness_name = harness;
-	clock_gettime(CLOCK_REALTIME, &t0);
+	syscall(SYS_clock_gettime, CLOCK_REALTIME, &t0);	/* harnesses interpose clock_gettime */
 	SH = shalloc(sizeof(*SH));
 	for (i = 0; i < NSETS; i++) settab[i] = shalloc(sizeof(uint64_t) << SETBITS);
 	if ((e = getenv("VERIF_TIER")) != NULL && strcmp(e, "thorough") == 0) vf_tier = 1;
@@ -93,7 +94,7 @@ double
 vf_now(void)
 {
 	struct timespec t;
-	clock_gettime(CLOCK_REALTIME, &t);
+	syscall(SYS_clock_gettime, CLOCK_REALTIME, &t);
 	return (double)(t.tv_sec - t0.tv_sec) + (double)(t.tv_nsec - t0.tv_nsec) / 1e9;
 }
 
